@@ -188,7 +188,17 @@ def array_shard(args):
         if ak is not None:
             ctors += [("zip", lambda: vector.zip({n: cols[n] for n in names})),
                       ("Array", lambda: vector.Array([{n: float(cols[n][r]) for n in names} for r in range(2)]))]
-        for cname, f in ctors:
+        ctors = [(c, f, cols) for c, f in ctors]
+        # columns of different numeric dtypes given in non-canonical (reversed / rotated) key order
+        DT = (np.int64, np.float64, np.float32, np.int32)
+        mixed = {n: (np.array([10 * (j + 1) + 1, 10 * (j + 1) + 2], dtype=DT[j % 4]) if DT[j % 4] in (np.int64, np.int32)
+                     else np.array([10.0 * (j + 1) + 0.25, 10.0 * (j + 1) + 0.5], dtype=DT[j % 4])) for j, n in enumerate(names)}
+        rev, rot = list(reversed(names)), list(names[1:] + names[:1])
+        ctors += [("array(reversed-keys,mixed-dtypes)", lambda: vector.array({n: mixed[n] for n in rev}), mixed),
+                  ("array(rotated-keys,mixed-dtypes)", lambda: vector.array({n: mixed[n] for n in rot}), mixed)]
+        if ak is not None:
+            ctors += [("zip(reversed-keys,mixed-dtypes)", lambda: vector.zip({n: mixed[n] for n in rev}), mixed)]
+        for cname, f, cols in ctors:
             try:
                 with np.errstate(all="ignore"):
                     a = f()
